@@ -5,7 +5,7 @@ import argparse, glob, json, os, shutil, subprocess, sys
 VERIF = os.path.dirname(os.path.dirname(os.path.abspath(__file__)))
 ALL = ['C%02d' % i for i in range(1, 21)]
 ap = argparse.ArgumentParser(); ap.add_argument('--only', nargs='*'); ap.add_argument('--checks', nargs='*', default=ALL); a = ap.parse_args()
-results = {}
+results = json.load(open(os.path.join(VERIF, 'seeded', 'benign', 'result.json'))) if os.path.exists(os.path.join(VERIF, 'seeded', 'benign', 'result.json')) else {}
 for diff in sorted(glob.glob(os.path.join(VERIF, 'seeded', 'benign', '*.diff'))):
     name = os.path.basename(diff)[:-5]
     if a.only and name not in a.only:
